@@ -89,50 +89,54 @@ ZoneF == << <<"X">>, <<"X","X">>, <<"X","X","X">>, <<"X","X","X","X">>, <<"X","X
             <<"x">>, <<"x","x">>, <<"x","x","x">>, <<"x","x","x","x">>, <<"x","x","x","x","x">> >>
 DecoF == << <<"G">>, <<"G","G","G","G">>, <<"G","G","G","G","G">>, <<"q">>, <<"q","q","q">>, <<"q","q","q","q">>, <<"w">>, <<"w","w">>,
             <<"e">>, <<"e","e","e">>, <<"e","e","e","e">>, <<"e","e","e","e","e","e">>, <<"e","e","e","e","e","e","e","e">> >>
-Seps == << <<"-">>, <<"/">>, <<" ">>, <<"'","T","'">>, <<",", " ">>, <<"'"," ","a","t"," ","'">>, <<"'","o","'","'","c","l","o","c","k"," ","'">> >>
+Seps == << <<"-">>, <<"/">>, <<" ">>, <<"'","T","'">>, <<",", " ">>, <<"'"," ","a","t"," ","'">>, <<"'","o","'","'","c","l","o","c","k"," ","'">>,
+           <<"年">>, <<"·">>, <<" ", "→", " ">> >>
 Elems(F) == {F[i] : i \in 1..Len(F)}
 
 \* full date x full time x zone, every variant combination of the reduced sets, one separator scheme per shard
-FullPatterns ==
+FullPatterns(z) ==
   {y \o Seps[1] \o m \o Seps[1] \o d \o Seps[4] \o h \o <<":">> \o mi \o <<":">> \o s \o <<".">> \o n \o Seps[3] \o zz :
      y \in Elems(YearF), m \in Elems(MonthF), d \in Elems(DayF), h \in Elems(HourF), mi \in Elems(MinF), s \in Elems(SecF),
-     n \in {SubF[5], SubF[3]}, zz \in {ZoneF[3], ZoneF[5], ZoneF[7], ZoneF[10], ZoneF[1], ZoneF[4]}}
-Full12 ==
+     n \in {SubF[5], SubF[3]}, zz \in {ZoneF[i] : i \in {j \in {3, 5, 7, 10, 1, 4, 2, 9} : InShard(j)}}}
+Full12(z) ==
   {y \o Seps[2] \o dd \o Seps[5] \o h \o Seps[3] \o pd \o <<":">> \o MinF[2] \o <<":">> \o SecF[2] \o Seps[3] \o SubF[5] \o Seps[3] \o ZoneF[5] \o Seps[3] \o deco :
-     y \in Elems(YearF), dd \in Elems(DoyF), h \in Elems(Hour12F), pd \in Elems(PeriodF), deco \in Elems(DecoF)}
+     y \in Elems(YearF), dd \in Elems(DoyF), h \in Elems(Hour12F), pd \in {PeriodF[i] : i \in {j \in 1..Len(PeriodF) : InShard(j)}},
+     deco \in Elems(DecoF)}
 \* one, two and three fields in every order with every separator
 AllF == Elems(YearF) \cup Elems(MonthF) \cup Elems(DayF) \cup Elems(DoyF) \cup Elems(HourF) \cup Elems(MinF) \cup Elems(SecF)
         \cup Elems(SubF) \cup Elems(ZoneF) \cup Elems(DecoF) \cup Elems(Hour12F) \cup Elems(PeriodF)
-Pairs == {a \o sp \o b : a \in AllF, b \in AllF, sp \in {Seps[1], Seps[3], Seps[6]}}
-Singles == AllF \cup {Seps[4] \o a \o Seps[7] : a \in AllF}
+AllFSeq == SetToSeq(AllF)
+MyF == {AllFSeq[i] : i \in {j \in 1..Len(AllFSeq) : InShard(j)}}        \* this shard's share of the first field
+Pairs(z) == {a \o sp \o b : a \in MyF, b \in AllF, sp \in (IF Thorough THEN {Seps[1], Seps[3], Seps[6], Seps[8]} ELSE {Seps[3], Seps[8]})}
+Singles == MyF \cup {Seps[4] \o a \o Seps[7] : a \in MyF}
 
 C12Values(ty) ==
   CASE ty = "dt" -> {Dt(D(2022, 10, 9), 45296, 123456789, -19800), Dt(D(-5, 2, 29), 0, 0, 0),
-                     Dt(D(9999, 12, 31), 86399, 999999999, 3600), Dt(D(1, 1, 1), 43200, 0, 45240)}
+                     Dt(D(9999, 12, 31), 86399, 999999999, 3600), Dt(D(1, 1, 1), 43200, 0, 45240),
+                     Dt(D(2024, 3, 1), 1200, 0, -1800)}
                     \cup (IF Thorough THEN {Dt(d, c[1], c[2], o) : d \in {D(2022, 5, 2), D(2024, 12, 30), D(10000, 1, 1)},
                                                                     c \in {<<3600, 500000000>>, <<46800, 1000>>}, o \in {0, -86340}} ELSE {})
     [] ty = "date" -> {Dat(D(2022, 10, 9)), Dat(D(-5, 2, 29)), Dat(D(9999, 12, 31)), Dat(D(1, 1, 1)), Dat(D(20173, 2, 3))}
                       \cup (IF Thorough THEN {Dat(d) : d \in YearDays \cup WeekDays} ELSE {})
-    [] ty = "time" -> {Tm(45296, 123456789, -19800), Tm(0, 0, 0), Tm(43200, 0, 3600), Tm(86399, 999999999, 0), Tm(3600, 500000000, 45240)}
+    [] ty = "time" -> {Tm(45296, 123456789, -19800), Tm(0, 0, 0), Tm(43200, 0, 3600), Tm(86399, 999999999, 0), Tm(3600, 500000000, 45240),
+                       Tm(60, 0, -59)}
                       \cup (IF Thorough THEN {Tm(c[1], c[2], o) : c \in Clock, o \in {0, 3600}} ELSE {})
 RT(val, p) == [op |-> "roundtrip", val |-> val, p |-> p]
 Hash(p) == Len(p) + (IF Len(p) > 2 THEN (IF p[3] \in {"y", "M", "d", "H", "m"} THEN 1 ELSE 0) ELSE 0)
 C12(z) ==
-  LET pats == FullPatterns \cup Full12 \cup Pairs \cup Singles
-      mine == {p \in pats : InShard(Hash(p))}
-  IN UNION {{RT(v, p) : v \in C12Values(ty)} : p \in mine, ty \in {"dt"}}
-     \cup UNION {{RT(v, p) : v \in C12Values(ty)} : p \in {q \in Singles \cup Pairs : InShard(Hash(q))}, ty \in {"date", "time"}}
+  UNION {{RT(v, p) : v \in C12Values(ty)} : p \in FullPatterns(z) \cup Full12(z) \cup Pairs(z) \cup Singles, ty \in {"dt"}}
+  \cup UNION {{RT(v, p) : v \in C12Values(ty)} : p \in Singles \cup Pairs(z), ty \in {"date", "time"}}
 
 \* ---- C13 ----------------------------------------------------------------------------------
 RDates == << <<"0","0","0","1","-","0","1","-","0","1">>, <<"9","9","9","9","-","1","2","-","3","1">>, <<"2","0","2","4","-","0","2","-","2","9">>,
              <<"2","0","2","3","-","0","2","-","2","8">>, <<"2","0","2","2","-","0","4","-","3","0">>, <<"1","9","7","0","-","0","1","-","0","1">> >>
 RTimes == << <<"0","0",":","0","0",":","0","0">>, <<"2","3",":","5","9",":","5","9">>, <<"1","2",":","3","4",":","5","6">> >>
 ROffs == << <<"Z">>, <<"+","0","0",":","0","0">>, <<"-","0","0",":","0","0">>, <<"+","0","0",":","0","1">>, <<"-","0","5",":","3","0">>,
-            <<"+","2","3",":","5","9">>, <<"-","2","3",":","5","9">> >>
+            <<"+","2","3",":","5","9">>, <<"-","2","3",":","5","9">>, <<"-","0","0",":","0","1">>, <<"-","0","0",":","3","0">>, <<"+","1","4",":","0","0">> >>
 \* digit shapes of a fraction of length n
 Frac(n, shape) == CASE shape = 1 -> Rep("0", n) [] shape = 2 -> Rep("9", n) [] shape = 3 -> <<"1">> \o Rep("0", n - 1)
                     [] shape = 4 -> Rep("0", n - 1) \o <<"1">> [] shape = 5 -> [i \in 1..n |-> DigitChars[((i * 7) % 10) + 1]]
-Good == {RDates[d] \o <<"T">> \o RTimes[t] \o (IF n = 0 THEN <<>> ELSE <<".">> \o Frac(n, sh)) \o ROffs[o] :
+Good(z) == {RDates[d] \o <<"T">> \o RTimes[t] \o (IF n = 0 THEN <<>> ELSE <<".">> \o Frac(n, sh)) \o ROffs[o] :
            d \in 1..Len(RDates), t \in 1..Len(RTimes), n \in 0..40, sh \in 1..5, o \in 1..Len(ROffs)}
 \* single-field mutations of a valid timestamp (position, replacement)
 Base == <<"2","0","2","2","-","0","5","-","0","2","T","1","2",":","3","2",":","0","1",".","5","+","0","1",":","0","0">>
@@ -144,7 +148,7 @@ Feb30 == <<"2","0","2","3","-","0","2","-","3","0","T","0","0",":","0","0",":","
 Apr31 == <<"2","0","2","3","-","0","4","-","3","1","T","0","0",":","0","0",":","0","0","Z">>
 Feb29 == <<"2","0","2","3","-","0","2","-","2","9","T","0","0",":","0","0",":","0","0","Z">>
 C13(z) ==
-  {[op |-> "rfc_read", s |-> s] : s \in {g \in Good : InShard(Len(g))}}
+  {[op |-> "rfc_read", s |-> s] : s \in {g \in Good(z) : InShard(Len(g))}}
   \cup (IF First THEN {[op |-> "rfc_read", s |-> Replace(Base, m[1], m[2])] : m \in Mutations}
                       \cup {[op |-> "rfc_read", s |-> s] : s \in {Feb30, Apr31, Feb29, Base}} ELSE {})
   \cup {[op |-> "rfc_write", val |-> Dt(d, c[1], c[2], o), prec |-> pr] :
@@ -164,9 +168,15 @@ C14(z) ==
       b \in (IF First THEN {Base, Feb29, <<"2","0","2","2","-","0","5","-","0","2","T","1","2",":","3","2",":","0","1","Z">>,
                             Base \o Rep("9", 30)} ELSE {})}
   \cup {[op |-> "family_cron", base |-> b, alphabet |-> <<"0", "7", "*", "/", ",", "-", "a", "é", " ", "+">>] :
-      b \in (IF First THEN {<<"*"," ","*"," ","*"," ","*"," ","*">>, <<"*","/","5"," ","1","-","2"," ","3",","," ","4"," ","j","a","n"," ","m","o","n">>} ELSE {})}
+      b \in (IF First THEN {<<"*"," ","*"," ","*"," ","*"," ","*">>, <<"*","/","5"," ","1","-","2"," ","3",","," ","4"," ","j","a","n"," ","m","o","n">>,
+                            <<"*","/","0"," ","0","-","0"," ","1",",","*","/","0"," ","*"," ","7">>, <<"5","9"," ","2","3"," ","3","1"," ","1","2"," ","6">>} ELSE {})}
   \cup {[op |-> "family_fromstr", ty |-> ty, alphabet |-> HostileAlphabet, maxlen |-> IF Thorough THEN 5 ELSE 4] :
       ty \in (IF First THEN {"dt", "date", "time"} ELSE {})}
+  \* field combinations (incl. the same field twice) read from texts whose digits are pushed to 9:
+  \* the parsed fields may add up past the end of the day / month / range
+  \cup {[op |-> "family_nines", ty |-> ty, p |-> p] : ty \in {"dt", "time", "date"}, p \in Pairs(z)}
+  \cup {[op |-> "family_nines", ty |-> ty, p |-> HourF[2] \o <<":">> \o MinF[2] \o <<":">> \o SecF[2] \o <<".">> \o a \o <<".">> \o b \o <<".">> \o c] :
+          ty \in (IF First THEN {"dt", "time"} ELSE {}), a \in Elems(SubF), b \in Elems(SubF), c \in Elems(SubF) \cup {<<>>}}
 
 \* ---- C20 ----------------------------------------------------------------------------------
 C20(z) ==
